@@ -489,24 +489,69 @@ func checkKeyUse(c *Ctx) {
 	c.Floor("decrypt call sites", nd, 2)
 	dp := c.MustFunc("decryptPayload")
 	okAll := false
-	inspectFn(dp, func(n ast.Node) bool {
-		rs, ok := n.(*ast.RangeStmt)
-		if !ok {
-			return true
-		}
-		id, ok := ast.Unparen(rs.X).(*ast.Ident)
-		if !ok || p.Info.Uses[id] != p.Info.Defs[dp.Decl.Type.Params.List[0].Names[0]] {
-			return true
-		}
-		// no break / early continue-skipping inside before the attempt
-		hasBreak := false
-		ast.Inspect(rs.Body, func(m ast.Node) bool {
-			if b, ok := m.(*ast.BranchStmt); ok && (b.Tok == token.BREAK) {
-				hasBreak = true
+	keysObj := p.Info.Defs[dp.Decl.Type.Params.List[0].Names[0]]
+	noBreak := func(body *ast.BlockStmt) bool {
+		ok := true
+		ast.Inspect(body, func(m ast.Node) bool {
+			switch v := m.(type) {
+			case *ast.BranchStmt:
+				if v.Tok == token.BREAK || v.Tok == token.GOTO {
+					ok = false
+				}
+			case *ast.ForStmt, *ast.RangeStmt, *ast.SwitchStmt, *ast.SelectStmt, *ast.TypeSwitchStmt, *ast.FuncLit:
+				return false // a break in there leaves that statement, not the key loop
 			}
 			return true
 		})
-		okAll = !hasBreak
+		return ok
+	}
+	inspectFn(dp, func(n ast.Node) bool {
+		switch rs := n.(type) {
+		case *ast.RangeStmt:
+			// range over the supplied keys (the parameter itself, or the parameter of an
+			// extracted helper that receives it)
+			if c.flowsFrom(rs.X, keysObj, dp, 0) && noBreak(rs.Body) {
+				okAll = true
+			}
+		case *ast.ForStmt:
+			// for i := 0; i < len(keys); i++ { ... keys[i] ... } without a break, i only stepped by the post statement
+			as, okI := rs.Init.(*ast.AssignStmt)
+			be, okC := rs.Cond.(*ast.BinaryExpr)
+			inc, okP := rs.Post.(*ast.IncDecStmt)
+			if !okI || !okC || !okP || len(as.Lhs) != 1 || len(as.Rhs) != 1 || be.Op != token.LSS || inc.Tok != token.INC {
+				return true
+			}
+			iv, isId := as.Lhs[0].(*ast.Ident)
+			if z, isC := p.ConstInt(as.Rhs[0]); !isId || !isC || z != 0 {
+				return true
+			}
+			io := p.Info.Defs[iv]
+			ci, ok1 := ast.Unparen(be.X).(*ast.Ident)
+			pi, ok2 := ast.Unparen(inc.X).(*ast.Ident)
+			lc, ok3 := ast.Unparen(be.Y).(*ast.CallExpr)
+			if io == nil || !ok1 || !ok2 || !ok3 || p.Info.Uses[ci] != io || p.Info.Uses[pi] != io || p.Builtin(lc) != "len" || len(lc.Args) != 1 || !c.flowsFrom(lc.Args[0], keysObj, dp, 0) {
+				return true
+			}
+			stepped := false
+			ast.Inspect(rs.Body, func(m ast.Node) bool {
+				switch v := m.(type) {
+				case *ast.AssignStmt:
+					for _, l := range v.Lhs {
+						if id, ok := ast.Unparen(l).(*ast.Ident); ok && p.Info.Uses[id] == io {
+							stepped = true
+						}
+					}
+				case *ast.IncDecStmt:
+					if id, ok := ast.Unparen(v.X).(*ast.Ident); ok && p.Info.Uses[id] == io {
+						stepped = true
+					}
+				}
+				return true
+			})
+			if !stepped && noBreak(rs.Body) {
+				okAll = true
+			}
+		}
 		return true
 	})
 	c.Check("C17/key-use/tries-all", rule, dp.Decl.Pos(), okAll, "the decrypt helper does not range over every supplied key")
